@@ -98,6 +98,10 @@ def pairBlocks (d : AssemDesign) : Option (List (String × Rat × String × Nat)
     some (d.blocks.zip (d.heights.zip (d.xsTypes.zip d.meshPoints)))
   else none
 
+/-- `_checkParamConsistency` over the material-modification lists (by block and by component alike): every list has
+one entry per block -/
+def listsConsistent (nBlocks : Nat) (lens : List Nat) : Bool := lens.all (· == nBlocks)
+
 /-! ### multiplicity learned from a pin lattice -/
 
 /-- `GridBlueprint.getLocators`: the grid positions whose specifier is one of the component's `latticeIDs`
